@@ -47,6 +47,9 @@ func (cs *caseSpec) key() string {
 	if cs.Var.Complex {
 		k += "|portioned"
 	}
+	if cs.Var.SmallLimit > 0 {
+		k += "|limit<=4"
+	}
 	return k
 }
 
@@ -59,6 +62,9 @@ func genCases(c *run.Ctx) []caseSpec {
 		cs.Var = variant{Cluster: cluster, Metrics15: r.Intn(4) != 0, TempoV2: r.Intn(3) != 0}
 		if strings.HasPrefix(pos.Name, "tempo.search.traceql") {
 			cs.Var.Complex = r.Intn(2) == 0 // the portioned (complex request processor) path
+			if cs.Var.Complex && r.Intn(2) == 0 {
+				cs.Var.SmallLimit = 1 + r.Intn(4)
+			}
 		}
 		out = append(out, cs)
 	}
@@ -304,6 +310,12 @@ func runCase(c *run.Ctx, rg *rig, cs *caseSpec) {
 	}
 	// (portioned TraceQL searches keep the shared trace: a trace found by an earlier portion is looked up again by
 	// its id in the later ones, and its spans outside the window must stay outside)
+	if cs.Var.SmallLimit > 0 {
+		// the limit cuts the answer: which probes are in it is not judged, what the scans admit is
+		p.Req.Query = strings.Replace(p.Req.Query, "limit=500", fmt.Sprintf("limit=%d", cs.Var.SmallLimit), 1)
+		p.NoProbeCheck = true
+		c.Floor("portioned searches with a limit an early portion fills", 0, 1)
+	}
 	items := p.genItems(lp)
 	runPrepared(c, rg, pos, cs, p, items, nil)
 }
